@@ -446,7 +446,7 @@ func genStructured(r *hx.Rand, c ioCfg) []byte {
 }
 
 func genHostile(r *hx.Rand, c ioCfg) []byte {
-	pieces := []string{"a", "b", `"`, `""`, string(c.Sep), "\n", "\r\n", "\r", " ", "é", "\xEF\xBB\xBF", "\xEF", "\xEF\xBB", "\xff", "\xc3", "#", ",", "\x00"}
+	pieces := []string{"a", "b", `"`, `""`, string(c.Sep), "\n", "\r\n", "\r", " ", "é", "\xEF\xBB\xBF", "\n\xEF\xBB\xBF", "\xEF", "\xEF\xBB", "\xff", "\xc3", "#", ",", "\x00"}
 	if c.Comment != 0 {
 		pieces = append(pieces, string(c.Comment), "\n"+string(c.Comment))
 	}
@@ -1014,10 +1014,10 @@ func main() {
 			addGroup(ioCfg{Sep: ',', Header: true}, s, allCompositions(s), "api", apiCap, apiMax, "exhaustive-header")
 		}
 	}
-	// hand-written seeds (the encoding/csv table shapes and the defects known from reading the code)
+	// hand-written seeds (the encoding/csv table shapes, the inputs of the repaired BOM defects F-C08-1/2/4, a BOM in mid-file)
 	seeds := []string{"\xEF\xBB\xBFa,b\nc,d\n", "\xEF\xBB\xBFa,b\n", "\xEF\xBB\xBF\"a\nb\",c\nd\n", "\xEF\xBB\xBF#x\na,b\nc\n", "\xEF\xBB\xBF\n\na\nb\n",
 		"a,b\r", "\"a\r\nb\"\rc\r\nd", "a,\"b\"\"c\",d\n", "a,\"b\nc\"d,e\n", "#c\n\n\r\na\n", "a, \"b\"\n", "\"a \"\"b\"\" c\"\n", "a\"b,c\n", "\"a\"b\",c\n",
-		"\"abc", "\"abc\r", "a,b,\n", ",\n", "\"\"\n", "\"\",\"\"\r\n", "x,\"y\r\n\r\nz\"\r\n", "\xEF\xBB", "\xEF\xBB\xBF", "\xEF\xBB\xBF\r", "§,é\n"}
+		"1,alice\n\xEF\xBB\xBF2,bob\n3,carol\n", "x\n\xEF\xBB\xBF\"p,q\",r\ny\n", "#c\n\xEF\xBB\xBFa\nb\n", "\"abc", "\"abc\r", "a,b,\n", ",\n", "\"\"\n", "\"\",\"\"\r\n", "x,\"y\r\n\r\nz\"\r\n", "\xEF\xBB", "\xEF\xBB\xBF", "\xEF\xBB\xBF\r", "§,é\n"}
 	for _, s := range seeds {
 		for _, c := range []ioCfg{{',', 0, false}, {',', '#', false}, {',', '#', true}} {
 			addGroup(c, []byte(s), standardChunkings(r, []byte(s), 100), "api", apiCap, apiMax, "seed")
@@ -1081,12 +1081,12 @@ func main() {
 		lines = append(lines, fmt.Sprintf("rfc %d %d %s", k.Sep, k.Comment, hx.Hex(d)))
 	}
 
-	// ---- the two reference formulations the theorems are stated about (no BOM: there the
-	// pinned tree's $0 depends on the buffer, which these formulations do not have) ----
+	// ---- the two reference formulations the theorems are stated about (inputs with a leading
+	// BOM included: since the BOM repairs $0 no longer depends on the buffer) ----
 	areadStart := len(lines)
 	var areadIdx []int
 	for i, k := range reads {
-		if !hasBOM(k.Data) && len(k.Data) <= 4096 {
+		if len(k.Data) <= 4096 {
 			areadIdx = append(areadIdx, i)
 			l := strings.Replace(k.line(), "read ", "aread ", 1)
 			// aread has no buffer parameters: drop cap and max
@@ -1099,7 +1099,7 @@ func main() {
 	var readallIdx []int
 	for _, g := range groups {
 		k := reads[g[0]]
-		if !hasBOM(k.Data) && len(k.Data) <= 4096 {
+		if len(k.Data) <= 4096 {
 			readallIdx = append(readallIdx, g[0])
 			h := "0"
 			if k.Header {
